@@ -203,9 +203,12 @@ pub fn gen_sched(rng: &mut Rng, lazy: bool) -> SchedGen {
     // scheduler-relevant decorations
     let serial_tag = if rng.chance(1, 5) { g.cfg.custom_which = true; "xserial" } else { "serial" };
     // focus modes: make the rarer mechanisms meet each other
-    let focus = rng.below(6); // 0,1 = none, 2 = delayed retries, 3 = serial + delayed retries, 4 = serial, 5 = retries everywhere
-    let p_serial = if focus == 3 || focus == 4 { 4 } else { *rng.pick(&[0usize, 1, 3]) };
-    let delay_ms = if focus == 2 || focus == 3 { *rng.pick(&[2u64, 5, 9]) } else { *rng.pick(&[0u64, 0, 0, 3, 8]) };
+    // (6, lazy parsers only: a LATE feature holding a serial and a concurrent scenario arrives while a delayed retry of an
+    //  earlier feature is still waiting for its deadline and other scenarios keep finishing — the waiting retry then
+    //  sits BEHIND freshly inserted entries in its queue)
+    let focus = if lazy && rng.chance(1, 5) { 6 } else { rng.below(6) }; // 0,1 = none, 2 = delayed retries, 3 = serial + delayed retries, 4 = serial, 5 = retries everywhere
+    let p_serial = if focus == 3 || focus == 4 { 4 } else if focus == 6 { 0 } else { *rng.pick(&[0usize, 1, 3]) };
+    let delay_ms = if focus == 6 { *rng.pick(&[40u64, 60, 90]) } else if focus == 2 || focus == 3 { *rng.pick(&[2u64, 5, 9]) } else { *rng.pick(&[0u64, 0, 0, 3, 8]) };
     let with_delay = focus == 2 || focus == 3 || rng.chance(1, 4);
     if focus == 2 || focus == 3 || focus == 5 {
         // every scenario has a retry budget and fails often
@@ -233,6 +236,25 @@ pub fn gen_sched(rng: &mut Rng, lazy: bool) -> SchedGen {
         for r in &mut f.rules {
             if rng.chance(p_serial, 20) { r.tags.push(serial_tag.to_owned()); }
             for s in &mut r.scens { deco(s, rng); }
+        }
+    }
+    if focus == 6 && g.feats.len() >= 2 {
+        // the first feature: every scenario fails its first attempt and waits `delay_ms` for its retry
+        let names: Vec<String> = g.feats[0].scens.iter().chain(g.feats[0].rules.iter().flat_map(|r| r.scens.iter()))
+            .map(|s| format!("s-{}", s.id)).collect();
+        let f0 = &mut g.feats[0];
+        for s in f0.scens.iter_mut().chain(f0.rules.iter_mut().flat_map(|r| r.scens.iter_mut())) {
+            s.tags.retain(|t| !t.starts_with("retry"));
+            s.tags.push(format!("retry(1).after({delay_ms}ms)"));
+        }
+        for ((name, att), sc) in g.scripts.iter_mut() {
+            if *att == 0 && names.contains(name) { sc.after = Some(Pan::Str(1)); }
+        }
+        // the last feature: one serial scenario next to concurrent ones
+        let last = g.feats.len() - 1;
+        let fl = &mut g.feats[last];
+        if let Some(s) = fl.scens.iter_mut().chain(fl.rules.iter_mut().flat_map(|r| r.scens.iter_mut())).next() {
+            s.tags.push(serial_tag.to_owned());
         }
     }
     // limits: builder / CLI
@@ -267,7 +289,7 @@ pub fn gen_sched(rng: &mut Rng, lazy: bool) -> SchedGen {
     let mut nerr = 0;
     for i in 0..g.feats.len() {
         if rng.chance(1, 8) { parser.push((pend(rng), Err(nerr))); nerr += 1; }
-        parser.push((if i == 0 && slow { 0 } else { pend(rng) }, Ok(i)));
+        parser.push((if i == 0 && (slow || focus == 6) { 0 } else if focus == 6 { rng.range(3, 12) } else { pend(rng) }, Ok(i)));
     }
     if rng.chance(1, 8) { parser.push((pend(rng), Err(nerr))); }
     let end_pendings = pend(rng);
